@@ -306,7 +306,8 @@ func joinFilter(a []any, sep func(string) string) any {
 	ss := make([]string, 0, len(a))
 	s := sep(" ")
 	for _, v := range a {
-		if v != nil {
+		// resolve drops and pointers, as rendering an object does
+		if v = values.ValueOf(v).Interface(); v != nil {
 			ss = append(ss, fmt.Sprint(v))
 		}
 	}
